@@ -2,11 +2,11 @@
 from __future__ import annotations
 from fractions import Fraction
 import numpy as np
-import impl, gen, oracle
+import impl, gen, oracle, scale
 from common import frac, score_matches, score_to_float
 from impl import quiet, UnmatchedInstancePair, NaiveThresholdMatching, F
 
-RULE = ("two references competing for one prediction with IoUs less than 1e-6 apart (instances of 1000-4000 voxels); overlap graphs built from 1-D run segmentations and 2-D/3-D object maps (predictions spanning k references, "
+RULE = ("large-scale corpus (oracle only, exact integer counts): a 25M-voxel volume with a 2^24+1-voxel instance, a 2^24+65536-voxel volume with an eligible pair only in its C-order tail, a 2.25M-voxel slab, thresholds at a candidate's rounded score and one float above it; two references competing for one prediction with IoUs less than 1e-6 apart (instances of 1000-4000 voxels); overlap graphs built from 1-D run segmentations and 2-D/3-D object maps (predictions spanning k references, "
         "references split into k predictions, shifted/merged instances) x metric {IOU,DSC,ASSD} x thresholds from a "
         "rational grid plus exact-hit thresholds (threshold := exact score of a candidate) plus thresholds one float beyond a candidate score x allow_many_to_one {F,T}; "
         "exhaustive: all pairs of {0,1,2}-label 1x4 (quick) / 1x5,2x2 (thorough) maps; "
@@ -242,8 +242,60 @@ def random_cases(ctx, n):
             one_case(ctx, pred, ref, metric, thr, rng.random() < 0.4, f"rand{i}")
 
 
+def scale_recipes():
+    """volumes beyond 2^24 voxels (not a multiple of 2^24), instances beyond 2^24 voxels, an eligible pair that
+    lives only in the C-order tail of the volume; thresholds at the rounded score (must match) and one float above it (must not)"""
+    B = 2 ** 24
+    out = []
+    # one reference fills the volume, prediction 1 covers 2^24+1 voxels: IoU = (2^24+1)/25165824
+    out.append({"kind": "runs", "shape": [3, 2048, 4096], "dtype": "uint8", "ref_runs": [[0, 3 * 2048 * 4096, 1]],
+                "pred_runs": [[0, B + 1, 1]]})
+    # 257x256x256 = 2^24 + 65536 voxels: one pair at the start, one pair only in the tail, a competing fragment in the tail
+    out.append({"kind": "runs", "shape": [257, 256, 256], "dtype": "uint8", "ref_runs": [[10, 4000, 1], [B + 100, 3000, 2]],
+                "pred_runs": [[10, 3000, 4], [B + 100, 2400, 5], [B + 2500, 600, 6]]})
+    # a 2-D slab just above 2^21 voxels with instances straddling the 2^20 / 2^21 marks
+    out.append({"kind": "runs", "shape": [1500, 1500], "dtype": "uint16", "ref_runs": [[2 ** 20 - 700, 1500, 300], [2 ** 21 - 50, 400, 7]],
+                "pred_runs": [[2 ** 20 - 500, 1500, 1000], [2 ** 21 - 10, 300, 2]]})
+    return out
+
+
+def scale_case(ctx, rec, src):
+    """oracle only (exact integer counts); IoU and Dice, both values of allow_many_to_one"""
+    pred, ref = scale.build(rec)
+    psize, rsize, inter = scale.contingency(pred, ref)
+    big = pred.size > 2 ** 23
+    for metric in (("IOU",) if (ctx.quick and big) else ("IOU", "DSC")):
+        scores = sorted({scale.pair_score(metric, psize, rsize, inter, r, [p]) for (p, r) in inter})
+        plan = []
+        for q in scores[:1 if (ctx.quick and big) else 2]:
+            plan += [(scale.float_at(q), False), (scale.float_above(q), False)]
+        plan.append((0.5, True))
+        if not ctx.quick:
+            plan += [(0.5, False), (scale.float_at(scores[0]), True)]
+        for t, m2o in plan:
+            thr = tuple(float(t).as_integer_ratio())
+            inp = {"recipe": rec, "metric": metric, "thr": list(thr), "m2o": m2o, "src": src}
+            ctx.case(inp, True)
+            ctx.count("scale_oracle_only")
+            _, lmap, _ = run_impl(pred, ref, metric, thr, m2o)
+            if isinstance(lmap, str):
+                ctx.violation(f"matching raised {lmap} on a large volume", inp, impl=lmap, key={"kind": "raises", "m2o": m2o})
+                continue
+            fails, cands = scale.check_matching_counts(pred, ref, metric, float(t), m2o, lmap)
+            if fails:
+                ctx.violation("matching violates C03 on a large volume: " + fails[0], inp,
+                              impl={"lmap": lmap, "exact_scores": {f"{p}/{r}": str(v) for (p, r), v in cands.items()}},
+                              key={"kind": "invalid-matching"})
+
+
+def scale_cases(ctx):
+    for k, rec in enumerate(scale_recipes()):
+        scale_case(ctx, rec, f"scale{k}")
+
+
 def run(ctx):
     corpus(ctx)
+    scale_cases(ctx)
     exhaustive(ctx, (1, 4) if ctx.quick else (1, 5))
     random_cases(ctx, ctx.scale(800, 12000))
 
@@ -254,6 +306,9 @@ def search(ctx):
 
 def replay(ctx, rec):
     i = rec["input"]
+    if "recipe" in i:
+        scale_case(ctx, i["recipe"], "replay")
+        return
     pred = np.array(i["pred"], dtype=np.uint32).reshape(i["shape"])
     ref = np.array(i["ref"], dtype=np.uint32).reshape(i["shape"])
     one_case(ctx, pred, ref, i["metric"], tuple(i["thr"]), i["m2o"], "replay")
